@@ -504,7 +504,7 @@ def forall_gen(tier):
 # item / element expressions whose value changes from one evaluation to the next (tab(n, expr) evaluates expr per element; concat,
 # put and insert receive whatever an opaque function hands back): the container must refuse them or stay uniform
 VARY = {"7": "integer", "int()": "integer", '"s"': "string", "str()": "string", "2.5": "decimal", "num()": "decimal", "true": "boolean",
-        "null": None, "tab(1, 1)": "table", "tup(1, 2)": "tuple", 'raw("x")': "bytes"}
+        "null": None, "tab(1, 1)": "table", 'tab(1, "s")': "tableS", "tab()": None, "tup(1, 2)": "tuple", 'raw("x")': "bytes"}
 
 
 def vary_gen(tier):
@@ -522,6 +522,9 @@ def vary_gen(tier):
                 "concat": 's = ""; t = tab(1, vseq(s.concat("x"))); t.concat(vseq(s.concat("x"))); t.concat(vseq(s.concat("x")));',
                 "put": 's = ""; t = tab(3, vseq("x")); s = "x"; t.put(1, vseq(s.concat("x"))); t.put(2, vseq(s.concat("x")));',
                 "insert": 's = ""; t = tab(1, vseq(s.concat("x"))); t.insert(0, vseq(s.concat("x"))); t.insert(1, vseq(s.concat("x")));',
+                # rows of a table of tables, one of them null, receive what an opaque function hands back
+                "row-concat": 's = ""; t = tab(3, tab(1, 7)); t.put(0, null); zz = vseq(s.concat("x")); t.at(0).concat(vseq(s.concat("x"))); t.at(1).concat(vseq(s.concat("x")));',
+                "row-put": 's = ""; t = tab(3, tab(1, 7)); zz = vseq(s.concat("x")); t.at(1).put(0, vseq(s.concat("x"))); t.put(2, vseq(s.concat("x")));',
             }
             for pk, prog in progs.items():
                 ops = [op_ctx(), op_run(fn), op_run(prog), op_dump(0, "T"), op_run("forall e in t loop zz = typeof(e); end loop; print t.count();"), op_out(0)]
@@ -539,7 +542,7 @@ def check_extra(case, res, vs):
         homogeneous = len(set(types)) == 1 and types[0] is not None
         if run.get("r") not in ("ok", "rerr", "perr"):
             return vs, True
-        if homogeneous and run.get("r") != "ok" and types[0] not in ("table", "tuple"):
+        if homogeneous and run.get("r") != "ok" and types[0] not in ("table", "tableS", "tuple") and not m["via"].startswith("row-"):
             vs.append(Violation("vary:homogeneous-rejected:%s" % m["via"], "%s with items %s was rejected: %s" % (m["prog"], m["seq"], run), case))
         if tv and tv != "<none>":
             try:
